@@ -75,7 +75,7 @@ DEFAULT_RULES: dict[str, str | re.Pattern[str]] = {
     ),
     "SPECIFIER": re.compile(
         Specifier._operator_regex_str + Specifier._version_regex_str,
-        re.VERBOSE | re.IGNORECASE,
+        re.VERBOSE | re.IGNORECASE | re.ASCII,
     ),
     "AT": r"\@",
     "URL": r"[^ \t]+",
